@@ -254,7 +254,10 @@ def _check_settings(spec, cfg, t, exp, styles, got_cues, acc, cc, idx):
         acc.violation("C07.settings.line", f"value,displayAlign={da}", dict(cc, t=t), observed=c.settings, expected=f"line:{float(want_line)}%")
       if (line[2] or "start") != want_align:
         acc.violation("C07.settings.line", f"alignment,displayAlign={da}", dict(cc, t=t), observed=c.settings, expected=want_align)
-  if ta and len(nonblank) == len(got_cues):
+  # (merged paragraphs have no single alignment: with regions merged into one cue - line_position off - a paragraph that is
+  # presented but hidden in another region still takes part in the merge, so the comparison is left out there as well)
+  hidden_partner = not lp and len(exp) > 1 and wc._uses_hiding(spec)  # pylint: disable=protected-access
+  if ta and len(nonblank) == len(got_cues) and not hidden_partner:
     for (rid, lines), c in zip(nonblank, got_cues):
       ps = {p for ln in lines for _ch, _s, p in ln}
       if len(ps) != 1:
